@@ -33,12 +33,17 @@ def str_of_code(c):
     return '<other string #%s>' % c
 
 
-ValSort = z3.DeclareSort('Val')     # opaque python values (signals, tables, option sets at group level)
+ValSort = z3.DeclareSort('Val')
+SeqSort = z3.DeclareSort('Seq')     # array values as opaque terms of a sequence algebra (for reductions)     # opaque python values (signals, tables, option sets at group level)
 
 
 def sort_of(ty):
     return {INT: z3.IntSort(), REAL: z3.RealSort(), BOOL: z3.BoolSort(), STR: z3.IntSort(),
-            VAL: ValSort}[ty]
+            VAL: ValSort, XR: XRS}[ty]
+
+
+# extended real: tag 0 finite, 1 nan, 2 +inf, 3 -inf
+FIN, NAN, PINF, NINF = 0, 1, 2, 3
 
 
 class Z:
@@ -53,29 +58,39 @@ class Z:
         return 'Z(%s:%s)' % (self.t, self.ty)
 
 
-# extended real: tag 0 finite, 1 nan, 2 +inf, 3 -inf
-FIN, NAN, PINF, NINF = 0, 1, 2, 3
+
+
+_XR = z3.Datatype('XR')
+_XR.declare('mk', ('tag', z3.IntSort()), ('val', z3.RealSort()))
+XRS = _XR.create()
 
 
 class X:
-    """Extended real scalar (IEEE specials without rounding)."""
-    __slots__ = ('tag', 'val')
+    """Extended real scalar (IEEE specials without rounding): one term of the datatype XR."""
+    __slots__ = ('t',)
     ty = XR
 
-    def __init__(self, tag, val):
-        self.tag = tag
-        self.val = val
+    def __init__(self, t):
+        self.t = t
+
+    @property
+    def tag(self):
+        return XRS.tag(self.t)
+
+    @property
+    def val(self):
+        return XRS.val(self.t)
 
     def __repr__(self):
-        return 'X(%s,%s)' % (self.tag, self.val)
+        return 'X(%s)' % (self.t,)
 
 
 def x_fin(v):
-    return X(z3.IntVal(FIN), v)
+    return X(XRS.mk(z3.IntVal(FIN), v))
 
 
 def x_nan():
-    return X(z3.IntVal(NAN), z3.RealVal(0))
+    return X(XRS.mk(z3.IntVal(NAN), z3.RealVal(0)))
 
 
 class NoneT:
